@@ -404,6 +404,7 @@ func generate(w *mon.W) {
 			"join (U) on $left.a == %s", "extend y = %s | where y == %s",
 			// the same comparison with the bound name and with the column of that name, side by side
 			"extend z = f(%s - 1, %s) | where g(%s + 1) == h(%s)",
+			"where ts > datetime(2024-%s) | extend d = date(1999 - %s), e = ago(%s-1)",
 			"where b > %s and b > `%a`", "where b > `%a` and b > %s", "where b == %s or b == `%a` or b == %s", "extend p = %s, q = `%a`, r = %s"}
 		for ni, a := range names {
 			for ui, u := range uses {
